@@ -14,6 +14,7 @@ FUNCS = r'''
 #include <cstdint>
 #include <cmath>
 #include <algorithm>
+#include <vector>
 namespace vfps {
 int64_t  t_mod_mixed(int64_t a, uint64_t b)            { a %= b; return a; }
 int64_t  t_div_mixed(int64_t a, uint64_t b)            { a /= b; return a; }
@@ -61,6 +62,13 @@ int32_t  t_break_continue(uint32_t n)                  { int32_t s = 0; for (uin
 int32_t  t_early_return(int32_t a, int32_t b)          { if (a < 0) return -1; if (b < 0) { a++; return a; } return a % 7 + b % 5; }
 uint32_t t_comma_for(uint32_t n)                       { uint32_t s = 0; for (uint32_t i = 0, j = 10; i < n % 4; i++, j--) { s += j - i; } return s; }
 int64_t  t_mixed_chain(int32_t a, uint16_t b, int64_t c) { return (a % 1000) * b + (c % 1000) - static_cast<int64_t>(b) * 3; }
+int32_t  t_vector(int32_t a, uint32_t i)               { std::vector<int32_t> v; v.push_back(a % 10); v.push_back(7); v.push_back(-3); v[i % 3] += 100; v.resize(4, 9); return static_cast<int32_t>(v.size()) * 10000 + v[0] * 100 + v[1] * 10 + v[2] + v[3] * 1000; }
+int32_t  t_vector_fill(uint32_t n)                     { std::vector<int32_t> v(4, 2); std::fill(v.begin(), v.begin() + (n % 4), 5); return v[0] * 1000 + v[1] * 100 + v[2] * 10 + v[3]; }
+int32_t  t_copy_n(uint32_t n)                          { std::vector<int32_t> a(4, 1); std::vector<int32_t> b(4, 0); a[1] = 2; a[2] = 3; a[3] = 4; std::copy_n(a.data() + (n % 2), 2, b.data() + 1); return b[0] * 1000 + b[1] * 100 + b[2] * 10 + b[3]; }
+struct Pt { float x; float y; };
+int32_t  t_struct(int32_t a, int32_t b)                { Pt p{static_cast<float>(a % 100), static_cast<float>(b % 100)}; Pt q = p; q.x += 1.0f; p.y = q.x; return static_cast<int32_t>(p.x) * 1000 + static_cast<int32_t>(p.y) * 10 + (q.y == static_cast<float>(b % 100) ? 1 : 0); }
+int32_t  t_ptr_walk(uint32_t n)                        { std::vector<int32_t> v(5, 0); int32_t* p = v.data(); for (uint32_t i = 0; i < 5; i++) { *p = static_cast<int32_t>(i * (n % 3)); p++; } const int32_t* q = v.data() + 2; return q[0] * 100 + q[1] * 10 + *(q - 1); }
+uint32_t t_size_arith(uint32_t n)                      { std::vector<int32_t> v(n % 6, 1); return static_cast<uint32_t>(v.size() / 2 + v.size() % 2) * 10 + (v.empty() ? 1 : 0); }
 }
 '''
 
@@ -84,9 +92,11 @@ SIGS = {
     't_call': ('i32', [('a', 'i32')]), 't_ref': ('i32', [('a', 'i32'), ('b', 'i32')]), 't_array': ('i32', [('a', 'i32'), ('i', 'u32')]),
     't_break_continue': ('i32', [('n', 'u32')]), 't_early_return': ('i32', [('a', 'i32s'), ('b', 'i32s')]), 't_comma_for': ('u32', [('n', 'u32')]),
     't_mixed_chain': ('i64', [('a', 'i32'), ('b', 'u16'), ('c', 'i64')]),
+    't_vector': ('i32', [('a', 'i32'), ('i', 'u32')]), 't_vector_fill': ('i32', [('n', 'u32')]), 't_copy_n': ('i32', [('n', 'u32')]),
+    't_struct': ('i32', [('a', 'i32'), ('b', 'i32')]), 't_ptr_walk': ('i32', [('n', 'u32')]), 't_size_arith': ('u32', [('n', 'u32')]),
 }
 CT = {'i8': 'int8_t', 'u8': 'uint8_t', 'u16': 'uint16_t', 'i32': 'int32_t', 'u32': 'uint32_t', 'i64': 'int64_t', 'u64': 'uint64_t', 'f32': 'float'}
-LOOPS = {'t_loop_sum': {'i#0': 4}, 't_loop_down': {'while#0': 4}, 't_dowhile': {'do#0': 4}, 't_break_continue': {'i#0': 5}, 't_comma_for': {'i#0': 4}}
+LOOPS = {'t_loop_sum': {'i#0': 4}, 't_loop_down': {'while#0': 4}, 't_dowhile': {'do#0': 4}, 't_break_continue': {'i#0': 5}, 't_comma_for': {'i#0': 4}, 't_ptr_walk': {'i#0': 5}}
 
 
 def samples(kind, rnd):
